@@ -39,7 +39,9 @@ suggestions of NSGA-II (sampler RNG and its id counter are not persisted by
 design of the template - measured as class
 `sample_phase_suggestions_diverge`); anything
 about run A alone (if A itself raises, the case is counted in a
-`A_raises:*` class and is not judged).
+`A_raises:*` class and is not judged; `A_raises:suggest:Hang` is the watchdog
+of harness/c13_lib.clock interrupting a designer call that does not return -
+the eagle firefly pool has such a loop when infeasible fireflies are kept).
 """
 import copy
 
@@ -642,7 +644,7 @@ def check_cmaes(case):
   tr = lib.Transport(problem)
   t = case['t0']
   try:
-    with lib.clock(t):
+    with lib.clock(t, 180.0):  # first calls jit-compile
       try:
         a = make()
       except Exception as e:  # pylint: disable=broad-except
@@ -662,7 +664,7 @@ def check_cmaes(case):
                    else 'no_buffered_trials_at_any_restart')
     for i, step in enumerate(case['steps']):
       t += step['dt']
-      with lib.clock(t):
+      with lib.clock(t, 180.0):  # first calls jit-compile
         try:
           sa = list(a.suggest(step['count']))
         except Exception as e:  # pylint: disable=broad-except
@@ -694,7 +696,7 @@ def check_cmaes(case):
         else:
           completed.append(lib.finish(tr_, fb, ['m']))
       pending = still
-      with lib.clock(t):
+      with lib.clock(t, 180.0):  # first calls jit-compile
         try:
           a.update(vza.CompletedTrials(copy.deepcopy(completed)),
                    vza.ActiveTrials(copy.deepcopy(pending)))
@@ -741,7 +743,7 @@ def check_cmaes(case):
         return out
       if step['restart']:
         path = step['restart']
-        with lib.clock(t):
+        with lib.clock(t, 180.0):  # first calls jit-compile
           try:
             md = b.dump()
           except Exception as e:  # pylint: disable=broad-except
@@ -750,7 +752,7 @@ def check_cmaes(case):
             return out
         md2 = tr.carry(md, path)
         t += 1
-        with lib.clock(t):
+        with lib.clock(t, 180.0):  # first calls jit-compile
           try:
             b = make()
             b.load(md2)
@@ -882,7 +884,7 @@ def check_service(case):
     sname = study.name
     problem = svz.StudyConfig.from_proto(study.study_spec).to_problem()
     t = case['t0']
-    with lib.clock(t + case['steps'][0]['dt']):
+    with lib.clock(t + case['steps'][0]['dt'], 60.0):
       try:
         if algo == 'GRID_SEARCH':
           a = grid.GridSearchDesigner.from_problem(problem)
@@ -920,7 +922,7 @@ def check_service(case):
                and x.id not in fed]
       active = [x for x in all_trials if x.status == vz.TrialStatus.ACTIVE]
       fed.update(x.id for x in newly)
-      with lib.clock(t):
+      with lib.clock(t, 60.0):
         try:
           a.update(vza.CompletedTrials(newly), vza.ActiveTrials(active))
           sa = list(a.suggest(step['count']))
@@ -960,7 +962,7 @@ def check_service(case):
       # The state the service saved for the next policy instance must be the
       # state of the live instance (dump() is public; eagle stamps the wall
       # clock into it).
-      with lib.clock(t):
+      with lib.clock(t, 60.0):
         try:
           da = lib.dump_flat(a.dump(), ('dump_timestamp',))
         except Exception as e:  # pylint: disable=broad-except
